@@ -31,6 +31,9 @@ type history struct {
 	HdrFirst []int `json:"hdr_first,omitempty"`
 	// BigTD: the genesis total difficulty is 2^64-2, so the total difficulties of the first blocks straddle 2^64
 	BigTD bool `json:"big_td,omitempty"`
+	// Restart: after the InsertChain call with this (1-based) index the node is stopped and reopened on the
+	// same database (all in-memory caches start empty); 0 = never
+	Restart int `json:"restart,omitempty"`
 }
 
 func envFor(big64 bool) *chainkit.Env {
@@ -62,7 +65,7 @@ func runHistory(env *chainkit.Env, t *chaintree.Tree, h history) outcome {
 		o.fails = append(o.fails, "open: "+err.Error())
 		return o
 	}
-	defer bc.Stop()
+	defer func() { bc.Stop() }()
 	n := len(t.Blocks)
 	imported := make([]bool, n)
 	prevHeadTD := new(big.Int).Set(t.GenTD)
@@ -130,9 +133,29 @@ func runHistory(env *chainkit.Env, t *chaintree.Tree, h history) outcome {
 		if len(o.fails) > 0 {
 			return o
 		}
+		if h.Restart == si+1 {
+			bc.Stop()
+			if bc, err = env.Open(db, cc, chainkit.FullFaker()); err != nil {
+				o.fails = append(o.fails, fmt.Sprintf("call %d: reopening the node failed: %v", si, err))
+				return o
+			}
+			if nh := bc.CurrentBlock().Hash(); nh != head.Hash() {
+				o.fails = append(o.fails, fmt.Sprintf("call %d: head after a clean restart is %x, it was %x", si, nh, head.Hash()))
+				return o
+			}
+			o.headSeq += "R,"
+		}
 	}
 	o.coinsUsed = vrand.Used()
 	return o
+}
+
+// restartMax: trees up to this size are also run with a clean restart between any two calls
+func restartMax(tier string) int {
+	if tier == "thorough" {
+		return 4
+	}
+	return 3
 }
 
 // hdrMax: trees up to this size are also run with all headers delivered first
@@ -285,44 +308,53 @@ outer:
 								hdrFirst = order
 							}
 							for _, segs := range chaintree.Segmentations(s, order, maxSeg) {
-								// depth-first over coin scripts
-								stack := [][]float64{nil}
-								for len(stack) > 0 {
-									coins := stack[len(stack)-1]
-									stack = stack[:len(stack)-1]
-									h := history{Parent: s.Parent, Diff: s.Diff, Segments: segs, Coins: coins, Pruning: pruning, HdrFirst: hdrFirst, BigTD: ei == 1}
-									o := runHistory(env, tr, h)
-									res.Evals++
-									res.Counters["histories"]++
-									res.Counters["insert_calls"] += int64(len(segs))
-									res.Counters["block_imports"] += int64(o.imports)
-									if len(o.fails) > 0 {
-										// deterministic? run twice more
-										for k := 0; k < 2; k++ {
-											if o2 := runHistory(env, tr, h); len(o2.fails) == 0 {
-												ev.Broken("C02 verdict flipped on re-run: %v", o.fails)
+								// a clean restart after each call but the last (trees of <= restartMax blocks, blocks only)
+								restarts := []int{0}
+								if hm == 0 && ei == 0 && n <= restartMax(tier) && (!pruning || tier == "thorough") {
+									for r := 1; r < len(segs); r++ {
+										restarts = append(restarts, r)
+									}
+								}
+								for _, restart := range restarts {
+									// depth-first over coin scripts
+									stack := [][]float64{nil}
+									for len(stack) > 0 {
+										coins := stack[len(stack)-1]
+										stack = stack[:len(stack)-1]
+										h := history{Parent: s.Parent, Diff: s.Diff, Segments: segs, Coins: coins, Pruning: pruning, HdrFirst: hdrFirst, BigTD: ei == 1, Restart: restart}
+										o := runHistory(env, tr, h)
+										res.Evals++
+										res.Counters["histories"]++
+										res.Counters["insert_calls"] += int64(len(segs))
+										res.Counters["block_imports"] += int64(o.imports)
+										if len(o.fails) > 0 {
+											// deterministic? run twice more
+											for k := 0; k < 2; k++ {
+												if o2 := runHistory(env, tr, h); len(o2.fails) == 0 {
+													ev.Broken("C02 verdict flipped on re-run: %v", o.fails)
+												}
+											}
+											res.Violations = append(res.Violations, ev.Violation{
+												Scenario: "tree-import", Oracle: oracleOf(o.fails[0]), CaseID: fmt.Sprintf("n=%d", n),
+												Detail: map[string]interface{}{"history": h, "fails": o.fails, "tree": s.String()},
+											})
+											if len(res.Violations) >= 5 {
+												break outer
 											}
 										}
-										res.Violations = append(res.Violations, ev.Violation{
-											Scenario: "tree-import", Oracle: oracleOf(o.fails[0]), CaseID: fmt.Sprintf("n=%d", n),
-											Detail: map[string]interface{}{"history": h, "fails": o.fails, "tree": s.String()},
-										})
-										if len(res.Violations) >= 5 {
-											break outer
+										classes[hash64(fmt.Sprintf("%s|%s", s.String(), o.headSeq))] = true
+										if len(res.Samples) < 2 && n == maxN && len(coins) > 0 {
+											res.Samples = append(res.Samples, map[string]interface{}{"tree": s.String(), "segments": segs, "coins": coins, "heads": o.headSeq})
 										}
-									}
-									classes[hash64(fmt.Sprintf("%s|%s", s.String(), o.headSeq))] = true
-									if len(res.Samples) < 2 && n == maxN && len(coins) > 0 {
-										res.Samples = append(res.Samples, map[string]interface{}{"tree": s.String(), "segments": segs, "coins": coins, "heads": o.headSeq})
-									}
-									for i := len(coins); i < o.coinsUsed; i++ {
-										alt := make([]float64, i+1)
-										copy(alt, coins)
-										for j := len(coins); j < i; j++ {
-											alt[j] = 0.25
+										for i := len(coins); i < o.coinsUsed; i++ {
+											alt := make([]float64, i+1)
+											copy(alt, coins)
+											for j := len(coins); j < i; j++ {
+												alt[j] = 0.25
+											}
+											alt[i] = 0.75
+											stack = append(stack, alt)
 										}
-										alt[i] = 0.75
-										stack = append(stack, alt)
 									}
 								}
 							}
